@@ -371,7 +371,14 @@ func returnShapes(a *FnA, idx int) []string {
 	m := map[string]bool{}
 	for _, ret := range a.Returns() {
 		if idx < len(ret.Results) {
-			m[a.sh.Of(ret.Results[idx]).String()] = true
+			s := a.sh.Of(ret.Results[idx])
+			if s.K == "phi" {
+				for _, alt := range s.A {
+					m[alt.String()] = true
+				}
+				continue
+			}
+			m[s.String()] = true
 		}
 	}
 	return setKeys(m)
@@ -426,9 +433,9 @@ func actionStoreRules(r *Run, rule string) {
 			r.Check(len(free) > 0 && a.EveryPathTakes(up, miss, free), rule, con+"(no-double)", pos,
 				"the map write must be reachable only when the round has no entry or the existing entry has no such action")
 			if ar.keyChk {
-				nokey, _ := a.IfEdges("($x.PubKey == nil)", true, nil)
 				eq, _ := a.IfEdges("@@gcrypto.PubKey.Equal($...)", true, nil)
-				r.Check(len(eq) > 0 && a.EveryPathTakes(up, miss, nokey, eq), rule, con+"(same-key)", pos,
+				keyOK := a.IfEdgesAlt(Spec("($x.PubKey == nil)", true, nil), Spec("@@gcrypto.PubKey.Equal($...)", true, nil))
+				r.Check((len(eq) > 0 || len(keyOK) > 0) && a.EveryPathTakes(up, miss, keyOK), rule, con+"(same-key)", pos,
 					"the map write must be reachable only when no key is recorded or the recorded key equals the offered one")
 			}
 			// same key for lookup and update, derived from the argument's height/round
